@@ -695,5 +695,20 @@ func init() {
 		e.c14Fwd(s, tx, "transact", "fwdTransactFn", "transactOnConn")
 		e.c14Fwd(s, tx, "transactOnConn", "fwdOnConnBegin", "b")
 		e.c14Fwd(s, tx, "transactOnConn", "fwdOnConnBody", "fn")
+		// … and what every statement method of the transaction's session hands to database/sql
+		for _, m := range []struct{ fn, lean, callee string }{
+			{"txSession.ExecCtx", "fwdTxExecCtx", "exec"}, {"txSession.QueryRowCtx", "fwdTxQueryRowCtx", "query"},
+			{"txSession.QueryRowPartialCtx", "fwdTxQueryRowPartialCtx", "query"},
+			{"txSession.QueryRowsCtx", "fwdTxQueryRowsCtx", "query"},
+			{"txSession.QueryRowsPartialCtx", "fwdTxQueryRowsPartialCtx", "query"},
+			{"txSession.PrepareCtx", "fwdTxPrepareCtx", "t.Tx.PrepareContext"},
+			{"txSession.Exec", "fwdTxExec", "t.ExecCtx"}, {"txSession.Prepare", "fwdTxPrepare", "t.PrepareCtx"},
+			{"txSession.QueryRow", "fwdTxQueryRow", "t.QueryRowCtx"},
+			{"txSession.QueryRowPartial", "fwdTxQueryRowPartial", "t.QueryRowPartialCtx"},
+			{"txSession.QueryRows", "fwdTxQueryRows", "t.QueryRowsCtx"},
+			{"txSession.QueryRowsPartial", "fwdTxQueryRowsPartial", "t.QueryRowsPartialCtx"},
+		} {
+			e.c14Fwd(s, tx, m.fn, m.lean, m.callee)
+		}
 	})
 }
